@@ -30,3 +30,27 @@ Definition lines_within (max : Z) (s : list Z) : Prop :=
 
 Definition ascii (s : list Z) : Prop := Forall (fun c => 0 <= c < 128) s.
 
+
+(* ------------------------------------------------------------------ selectors as text
+   A peer name is a sequence of tokens separated by one space:
+     neighbor <ip> local-ip <ip> local-as <n> peer-as <n> router-id <ip> family-allowed <x>
+   and a selector term "<key> <value>" selects the peer exactly when that key token is followed by
+   that value token - never when the value is only the beginning or the end of the peer's. *)
+Definition white (c : Z) : Prop := 9 <= c <= 13 \/ 28 <= c <= 32.
+
+(* a token: not empty, no white space, no comma *)
+Definition token (w : list Z) : Prop := w <> [] /\ Forall (fun c => ~ white c /\ c <> 44) w.
+
+Fixpoint join (ws : list (list Z)) : list Z :=
+  match ws with
+  | [] => []
+  | [w] => w
+  | w :: r => w ++ 32 :: join r
+  end.
+
+Definition pair_occurs (k v : list Z) (ws : list (list Z)) : Prop :=
+  exists before after, ws = before ++ k :: v :: after.
+
+(* the peer name the code builds from (key, value) fields *)
+Definition name_tokens (fields : list (list Z * list Z)) : list (list Z) :=
+  flat_map (fun p => [fst p; snd p]) fields.
